@@ -27,8 +27,8 @@ BUDGET_S = {'quick': 110, 'thorough': 540}
 NUMBA_THREADS = 2
 SUBJECTS = ['cpa', 'cpa_alt', 'dpa', 'anova', 'nicv', 'snr', 'mia', 'tbuild', 'tstatic', 'tdpa']
 KINDS = ['traces_list', 'data_list', 'data_none', 'rows_mismatch', 'traces_1d', 'trace_len', 'word_count', 'data_float', 'dpa_nonbinary',
-         'auto_big', 'auto_negative', 'memory_refused']
-REQUIRED_COUNTERS = ['rejections_observed', 'rejections_first_call', 'rejections_later_call', 'state_after_rejection_compared',
+         'auto_big', 'auto_negative', 'memory_refused', 'data_int64']
+REQUIRED_COUNTERS = ['auto_partition_first_call_rejections', 'rejections_observed', 'rejections_first_call', 'rejections_later_call', 'state_after_rejection_compared',
                      'later_results_compared', 'analysis_process_rejections', 'analysis_run_interruptions', 'template_run_before_build']
 RULE = ('a case = (distinguisher in 10 classes | analysis class, rejection kind in 12 + 5 analysis-level kinds, number k <= 4 of accepted batches, '
         'precision, sub-seed); inside a case EVERY insertion position p in 0..k is executed; non-trivial = at least one call actually '
@@ -54,6 +54,8 @@ def applicable(name, kind, p):
         return p >= 1 or name == 'tbuild'
     if kind == 'data_float':
         return name not in ('cpa', 'cpa_alt', 'tstatic')
+    if kind == 'data_int64':
+        return name in subjects.PARTITIONED
     if kind == 'dpa_nonbinary':
         return name == 'dpa' and p == 0
     if kind in ('auto_big', 'auto_negative'):
@@ -79,6 +81,14 @@ def cases(tier, seed):
             for kk in ks:
                 out.append(dict(gen='dist', subject=name, kind=kind, k=kk, precision=['float32', 'float64'][k % 2], sub=core.subseed('C16', seed, k), must=True))
                 k += 1
+    # automatic class sets (partitions=None): a refused FIRST call must not leave the class set it estimated behind;
+    # the refused batch holds small values (bucket of 9), the accepted ones the whole byte range (bucket of 256)
+    for name in subjects.PARTITIONED:
+        for kind in ('traces_1d', 'data_float', 'data_int64', 'word_count', 'memory_refused'):
+            if kind == 'word_count' and name != 'tbuild':
+                continue
+            out.append(dict(gen='dist', subject=name, kind=kind, k=2, auto=True, precision=['float32', 'float64'][k % 2], sub=core.subseed('C16auto', seed, name, kind), must=True))
+            k += 1
     for j, klass in enumerate(['CPAAttack', 'CPAReverse', 'DPAAttack', 'ANOVAAttack', 'NICVReverse', 'SNRAttack', 'MIAAttack', 'DPAReverse']):
         for akind in ('sf_missing_key', 'model_rejects_dtype', 'other_trace_length', 'rows_differ', 'preprocess_raises'):
             out.append(dict(gen='analysis', klass=klass, kind=akind, precision=['float32', 'float64'][(j + k) % 2], sub=core.subseed('C16a', seed, klass, akind), must=True))
@@ -129,6 +139,8 @@ def _bad_call(kind, tr, d, rng, name):
         return tr, np.concatenate([d2, d2[:, :1]], axis=1)
     if kind == 'data_float':
         return tr, d.astype('float64')
+    if kind == 'data_int64':
+        return tr, d.astype('int64')
     if kind == 'dpa_nonbinary':
         dd = d.copy()
         dd.reshape(-1)[0] = 2
@@ -199,7 +211,11 @@ def _workload(case, rng, auto=False):
             break
     else:
         raise core.Inconclusive('no workload of a suitable size')
-    if auto:
+    if auto == 'wide':
+        spec['partitions'] = None
+        data = rng.integers(0, 256, data.shape).astype('uint8')
+        data.reshape(data.shape[0], -1)[:, 0] = rng.integers(100, 256, data.shape[0])      # every batch reaches the 256-value bucket
+    elif auto:
         spec['partitions'] = None
         data = rng.integers(0, 9, data.shape).astype('uint8')
         data.reshape(-1)[0] = 8
@@ -225,7 +241,7 @@ def run_dist(case):
         t.count(c, 0)
     rng = gen.rng_of(case['sub'])
     name, kind, k = case['subject'], case['kind'], case['k']
-    auto = kind in ('auto_big', 'auto_negative')
+    auto = 'wide' if case.get('auto') else kind in ('auto_big', 'auto_negative')
     spec, traces, data, n, T, ws, tdtype = _workload(case, rng, auto=auto)
     sizes = _composition(rng, n, k)
     kern = name in ('anova', 'nicv', 'snr', 'tbuild')
@@ -237,7 +253,7 @@ def run_dist(case):
     for p in range(k + 1):
         if not applicable(name, kind, p):
             continue
-        inf = dict(info, position=p)
+        inf = dict(info, position=p, automatic_partitions=bool(case.get('auto')))
         obj = subjects.make(spec)
         if kseq is not None:
             CONTROL.force(obj, list(kseq))
@@ -247,7 +263,13 @@ def run_dist(case):
             pos += s
         m = int(rng.integers(1, 5))
         src = int(rng.integers(0, n - m + 1))
-        btr, bd = _bad_call(kind, traces[src:src + m], data[src:src + m], rng, name)
+        bsrc = data[src:src + m]
+        if case.get('auto'):
+            bsrc = (bsrc % 8).astype(bsrc.dtype)       # the refused batch alone would select the 9-value class set
+            if p != 0:
+                continue                               # the class set is frozen by the first accepted batch afterwards
+            t.count('auto_partition_first_call_rejections')
+        btr, bd = _bad_call(kind, traces[src:src + m], bsrc, rng, name)
         raised = None
         with _NoMemory(kind == 'memory_refused'):
             try:
@@ -294,7 +316,7 @@ def run_dist(case):
         r = core.held(0, nontrivial=False, counters=t.counters, notes=['every call of this kind was accepted silently (not judged)'])
         r['metrics'] = {}
         return r
-    return t.result(sig=f"{name}|{kind}|{k}|{case['precision']}|{tdtype}|{n}x{T}|{ws}", sample=dict(case=case, derived=info, positions_judged=judged, comparisons=t.checks))
+    return t.result(sig=f"{name}|{kind}|{k}|{case['precision']}|{tdtype}|{n}x{T}|{ws}|{case.get('auto')}", sample=dict(case=case, derived=info, positions_judged=judged, comparisons=t.checks))
 
 
 def run_multi(case):
